@@ -67,6 +67,8 @@ def build_module(module: str, cls: str, vtype: str, lit: str, deps: list[dict[st
 			f'class Holder_{tag}(Generic[T_{tag}]):', f'\tvalue: T_{tag}', '', f'\tdef __init__(self, value: T_{tag}) -> None:', '\t\tself.value = value', '', f'\tdef get(self) -> T_{tag}:', '\t\treturn self.value', '', '',
 			f'class IntHolder_{tag}(Holder_{tag}[int]):', '\tcount: int', '', '\tdef __init__(self, value: int) -> None:', '\t\tsuper().__init__(value)', '\t\tself.count = 0', '',
 			'\tdef twice(self) -> int:', '\t\treturn self.value + self.value', '', '',
+			# the template-typed attribute is declared two levels up from here
+			f'class Deep_{tag}(IntHolder_{tag}):', '\tdef thrice(self) -> int:', '\t\treturn self.value + self.count', '', '',
 			f'class Tree_{tag}:', '\tn: int', '', '\tdef __init__(self) -> None:', '\t\tself.n = 0', '', f"\tdef first(self) -> 'Holder_{tag}[Leaf_{tag}]':", f'\t\treturn Holder_{tag}(Leaf_{tag}())', '',
 			f'\tdef pick(self, key: TK_{tag}, val: TV_{tag}, ext: TE_{tag}) -> TV_{tag}:', '\t\treturn val', '', '',
 			f'class Leaf_{tag}:', '\tm: int', '', '\tdef __init__(self) -> None:', '\t\tself.m = 1', '', '',
@@ -160,6 +162,9 @@ def build_module(module: str, cls: str, vtype: str, lit: str, deps: list[dict[st
 		lines.append('\tbix = bx.index()')
 		lines.append('\tbix2 = bix')
 	if generic:
+		lines.append(f'\tdp = Deep_{tag}(k)')
+		lines.append('\tdv = dp.value')
+		lines.append('\tdw = dv')
 		lines.append(f'\thh = IntHolder_{tag}(k)')
 		lines.append('\thv = hh.value')
 		lines.append('\thw = hv')
